@@ -1,5 +1,5 @@
 import PdshVerif.Dsh.TimedTeardown
-import PdshVerif.Dsh.FanLive
+import PdshVerif.Dsh.FanGLive
 
 /-! # Timed LTS: with the timeouts set and every command ending, virtual time is bounded (potential argument) -/
 namespace PdshVerif.Dsh.Timed
@@ -154,7 +154,7 @@ theorem rem_hostStep {c : Cfg} {sc : Script} {now wake : Nat} {h : Host} (R K : 
 theorem rem_tick_le (c : Cfg) (R K now : Nat) (h : Host) : rem c R K (now + 1) h ≤ rem c R K now h := by
   simp only [rem]; split <;> (try split) <;> omega
 
-theorem dstep_fan_none_guard' {s : St} {l : Fan.Label} {f' : Fan.St} (hf : Fan.step s.fan l = some f')
+theorem dstep_fan_none_guard' {s : St} {l : FanG.Label} {f' : FanG.St} (hf : FanG.step s.fan l = some f')
     (hn : dstep s (.fan l) = none) : fanGuard s l = false := by
   cases hg : fanGuard s l with
   | false => rfl
@@ -186,14 +186,14 @@ theorem waiting_for {s : St} (hi : TInv s) (hq : quiescent s = true) (hf : 0 < s
     ∃ j, j < s.hs.length ∧
       (((s.host j).intr = false ∧ ((s.host j).ph = .connecting ∨ (s.host j).ph = .reading)) ∨
        ((s.host j).ph = .finished ∧ (s.host j).gone s.now = false)) := by
-  obtain ⟨l, hsp, hen⟩ := Fan.progress_inv hi.fan hf hnf
-  have hen' := Fan.enabled_of_step hsp hen
+  obtain ⟨l, hsp, hen⟩ := FanG.progress_inv hi.fan hf hnf
+  have hen' := FanG.enabled_of_step hsp hen
   cases l with
   | d a =>
     exfalso
-    simp only [Fan.dEnabled, List.any_eq_true] at hen'
+    simp only [FanG.dEnabled, List.any_eq_true] at hen'
     obtain ⟨a', ha', hs'⟩ := hen'
-    cases hst : Fan.step s.fan (.d a') with
+    cases hst : FanG.step s.fan (.d a') with
     | none => rw [hst] at hs'; cases hs'
     | some f' =>
       have := dstep_fan_some (s := s) hst (by simp [fanGuard])
@@ -205,11 +205,11 @@ theorem waiting_for {s : St} (hi : TInv s) (hq : quiescent s = true) (hf : 0 < s
     obtain ⟨hen1, hi'⟩ := hen'
     have hih : i < s.hs.length := by rw [hi.lenH]; exact hi'
     have hsy := hi.sync i hih
-    cases hst : Fan.step s.fan (.w i a) with
+    cases hst : FanG.step s.fan (.w i a) with
     | none => rw [hst] at hen; cases hen
     | some f' =>
       have hg := dstep_fan_none_guard' hst (quiescent_none hq (mem_cands_w s hih a))
-      obtain ⟨hpre, _, _⟩ := Fan.pc_step_w hst
+      obtain ⟨hpre, _, _⟩ := FanG.pc_step_w hst
       rw [hpre] at hsy
       -- an interrupted target would have blocked the clock
       have hint : (s.host i).intr = true → ((s.host i).ph = .connecting ∨ (s.host i).ph = .reading) → False := by
@@ -223,7 +223,7 @@ theorem waiting_for {s : St} (hi : TInv s) (hq : quiescent s = true) (hf : 0 < s
           rw [quiescent_none hq (mem_cands_wake s hih)] at this; cases this
       cases a with
       | connectEnd =>
-        have hph : (s.host i).ph = .connecting := by simpa [phOK, Fan.WAct.pre] using hsy
+        have hph : (s.host i).ph = .connecting := by simpa [phOK, FanG.WAct.pre] using hsy
         refine ⟨i, hih, Or.inl ⟨?_, Or.inl hph⟩⟩
         cases hh : (s.host i).intr with
         | false => rfl
@@ -231,7 +231,7 @@ theorem waiting_for {s : St} (hi : TInv s) (hq : quiescent s = true) (hf : 0 < s
       | destroyBegin =>
         have hnfin : (s.host i).ph ≠ .finished := by simpa [fanGuard] using hg
         have hph : (s.host i).ph = .reading := by
-          have : (s.host i).ph = .reading ∨ (s.host i).ph = .finished := by simpa [phOK, Fan.WAct.pre] using hsy
+          have : (s.host i).ph = .reading ∨ (s.host i).ph = .finished := by simpa [phOK, FanG.WAct.pre] using hsy
           rcases this with h1 | h1
           · exact h1
           · exact absurd h1 hnfin
@@ -240,11 +240,11 @@ theorem waiting_for {s : St} (hi : TInv s) (hq : quiescent s = true) (hf : 0 < s
         | false => rfl
         | true => exact absurd (Or.inr hph) (fun x => hint hh x)
       | destroyEnd =>
-        have hph : (s.host i).ph = .finished := by simpa [phOK, Fan.WAct.pre] using hsy
+        have hph : (s.host i).ph = .finished := by simpa [phOK, FanG.WAct.pre] using hsy
         have hng : (s.host i).gone s.now = false := by
           simp only [fanGuard, Bool.or_eq_false_iff] at hg; exact hg.2
         exact ⟨i, hih, Or.inr ⟨hph, hng⟩⟩
-      | connectBegin | lock | signal | unlock => simp [fanGuard] at hg
+      | connectBegin | lock | signal | unlock | unlockFirst | signalAfter => simp [fanGuard] at hg
 
 /-- a second that passes is paid for by a target the run is waiting for -/
 theorem potential_tick {K : Nat} {s s' : St} (hi : TInv s) (h : step s .tick = some s') (hf : 0 < s.fan.f)
@@ -298,21 +298,17 @@ theorem potential_init (v f c scripts) (K : Nat) :
   have hj' : j < scripts.length := by simpa using hj
   rw [host_init v f c scripts hj']; simp [rem, initHost, init, budget, St.script]
 
-/-- nothing happens in the Fan component after dsh() has returned -/
-theorem fan_final_stuck {f : Fan.St} (hi : Fan.Inv f) (hfin : Fan.Final f) (l : Fan.Label) : Fan.step f l = none := by
+/-- once dsh() has returned it stays returned (all that can still happen in the protocol component are wake-up
+    calls that workers which unlocked first still owe) -/
+theorem fan_final_stable {f f' : FanG.St} (hfin : FanG.Final f) {l : FanG.Label} (hs : FanG.step f l = some f') :
+    FanG.Final f' := by
   have hd : f.dpc = .returned := hfin
-  cases hs : Fan.step f l with
-  | none => rfl
-  | some f' =>
-    exfalso
-    cases l with
-    | d a => cases a <;> simp [Fan.step, hd] at hs
-    | w i a =>
-      obtain ⟨hpre, _, rfl⟩ := Fan.w_step_facts hs
-      have hdone := hi.fin (by rw [hd]; rfl) i (Fan.lt_of_getElem? hpre)
-      have hp : Fan.pc f i = a.pre := Fan.getD_of_getElem? hpre
-      rw [hp] at hdone
-      cases a <;> cases hdone
+  cases l with
+  | d a => cases a <;> simp [FanG.step, hd] at hs
+  | w i a =>
+    obtain ⟨_, _, rfl⟩ := FanG.w_step_facts hs
+    show (FanG.wEffect i _ a).dpc = .returned
+    cases a <;> exact hd
 
 /-- TIMEOUTS BOUND THE RUN: with the connect timeout set, either the command timeout set or no target whose
     streams hang after the connect, and every command ending (`Td`: it exits by itself within `K` of its connect,
@@ -327,7 +323,7 @@ theorem time_bounded {v f c scripts} {K : Nat} {ls : List Label} {s : St} (he : 
     (¬ Final s → s.now + potential K s ≤ (scripts.map (budget c K)).sum) := by
   induction he with
   | nil =>
-    refine ⟨rfl, by simp [init, Fan.init], fun _ => ?_⟩
+    refine ⟨rfl, by simp [init, FanG.init], fun _ => ?_⟩
     rw [potential_init]; simp [init]
   | snoc he' hs ih =>
     rename_i ls0 s1 l0 s2
@@ -341,7 +337,7 @@ theorem time_bounded {v f c scripts} {K : Nat} {ls : List Label} {s : St} (he : 
     have hfan : s2.fan.f = f := by
       cases hp : projLabel l0 with
       | none => rw [hp] at hproj; rw [hproj]; exact hff
-      | some fl => rw [hp] at hproj; rw [(Fan.step_params hproj).2.1]; exact hff
+      | some fl => rw [hp] at hproj; rw [(FanG.step_params hproj).2.1]; exact hff
     refine ⟨hpar.1.trans hc, hfan, fun hnf2 => ?_⟩
     -- dsh() had not returned before either (nothing happens after the return)
     have hnf1 : ¬ Final s1 := by
@@ -349,8 +345,8 @@ theorem time_bounded {v f c scripts} {K : Nat} {ls : List Label} {s : St} (he : 
       cases hp : projLabel l0 with
       | some fl =>
         rw [hp] at hproj
-        have h2 : Fan.step s1.fan fl = some s2.fan := hproj
-        rw [fan_final_stuck hti.fan hfin fl] at h2; cases h2
+        have h2 : FanG.step s1.fan fl = some s2.fan := hproj
+        exact hnf2 (fan_final_stable hfin h2)
       | none => rw [hp] at hproj; exact hnf2 (by unfold Final; rw [hproj]; exact hfin)
     have hb1 := hb hnf1
     have hmi' : ∀ j, j < s1.hs.length → MInv (s1.script j) K (s1.host j) :=
